@@ -145,6 +145,11 @@ func (h *Sources) Redo() {
 		return
 	}
 
+	// Nothing has been undone: nothing to redo.
+	if line.pos < 1 {
+		return
+	}
+
 	line.pos--
 
 	if line.pos < 1 {
